@@ -56,9 +56,9 @@ theorem escsOf_ok (items : List Item) (hok : ∀ i ∈ items, Item.ok i) : ∀ i
   fun i hi => hok i (List.mem_filter.mp hi).1
 
 theorem truncText_ok (dw : Nat) (fill : Option Char) (hf : ∀ f, fill = some f → f ≠ ESC)
-    (used : Nat) (gs kept : List G) (used' : Nat) (hok : ∀ g ∈ gs, ESC ∉ g.s)
-    (h : truncText dw fill used gs = some (kept, used')) : ∀ g ∈ kept, ESC ∉ g.s := by
-  induction gs generalizing used kept used' with
+    (used : Nat) (gs kept : List G) (used' : Nat) (c : Bool) (hok : ∀ g ∈ gs, ESC ∉ g.s)
+    (h : truncText dw fill used gs = some (kept, used', c)) : ∀ g ∈ kept, ESC ∉ g.s := by
+  induction gs generalizing used kept used' c with
   | nil => simp [truncText] at h; obtain ⟨rfl, _⟩ := h; simp
   | cons g gs ih =>
     simp only [truncText] at h
@@ -81,32 +81,33 @@ theorem truncText_ok (dw : Nat) (fill : Option Char) (hf : ∀ f, fill = some f 
     · cases hr : truncText dw fill (used + g.w) gs with
       | none => simp [hr] at h
       | some p =>
-        obtain ⟨r, u⟩ := p
+        obtain ⟨r, u, c'⟩ := p
         simp [hr] at h
         obtain ⟨rfl, _⟩ := h
         intro g' hg'
         rcases List.mem_cons.mp hg' with e | e
         · subst e; exact hok g' List.mem_cons_self
-        · exact ih (used + g.w) r u (fun x hx => hok x (List.mem_cons_of_mem _ hx)) hr g' e
+        · exact ih (used + g.w) r u c' (fun x hx => hok x (List.mem_cons_of_mem _ hx)) hr g' e
 
-/-- The truncation loop keeps every escape sequence, in order, and yields well-formed items. -/
+/-- The truncation loop keeps every escape sequence, in order, and yields well-formed items —
+in both forms of the source (with and without the `truncated` flag). -/
 theorem truncGo_escs (dw : Nat) (fill : Option Char) (hf : ∀ f, fill = some f → f ≠ ESC)
-    (used : Nat) (items r : List Item) (hok : ∀ i ∈ items, Item.ok i)
-    (h : truncGo dw fill used items = some r) :
+    (cut : Bool) (used : Nat) (items r : List Item) (hok : ∀ i ∈ items, Item.ok i)
+    (h : truncGo dw fill cut used items = some r) :
     escsOf r = escsOf items ∧ ∀ i ∈ r, Item.ok i := by
-  induction items generalizing used r with
+  induction items generalizing cut used r with
   | nil => simp [truncGo] at h; subst h; simp [escsOf]
   | cons i items ih =>
     have hrest : ∀ j ∈ items, Item.ok j := fun j hj => hok j (List.mem_cons_of_mem _ hj)
     cases i with
     | esc e =>
       simp only [truncGo] at h
-      cases hr : truncGo dw fill used items with
+      cases hr : truncGo dw fill cut used items with
       | none => simp [hr] at h
       | some r' =>
         simp [hr] at h
         subst h
-        obtain ⟨h1, h2⟩ := ih used r' hrest hr
+        obtain ⟨h1, h2⟩ := ih cut used r' hrest hr
         refine ⟨by unfold escsOf at h1 ⊢; simp [List.filter, isEsc, h1], ?_⟩
         intro j hj
         rcases List.mem_cons.mp hj with e' | e'
@@ -114,23 +115,36 @@ theorem truncGo_escs (dw : Nat) (fill : Option Char) (hf : ∀ f, fill = some f 
         · exact h2 j e'
     | text gs =>
       simp only [truncGo] at h
-      cases ht : truncText dw fill used gs with
-      | none => simp [ht] at h
-      | some p =>
-        obtain ⟨kept, used'⟩ := p
-        simp only [ht] at h
-        cases hr : truncGo dw fill used' items with
+      split at h
+      · -- after the cut: the text item contributes nothing
+        cases hr : truncGo dw fill cut used items with
         | none => simp [hr] at h
         | some r' =>
           simp [hr] at h
           subst h
-          obtain ⟨h1, h2⟩ := ih used' r' hrest hr
+          obtain ⟨h1, h2⟩ := ih cut used r' hrest hr
           refine ⟨by unfold escsOf at h1 ⊢; simp [List.filter, isEsc, h1], ?_⟩
           intro j hj
           rcases List.mem_cons.mp hj with e' | e'
-          · subst e'
-            exact truncText_ok dw fill hf used gs kept used' (hok _ List.mem_cons_self) ht
+          · subst e'; intro g hg; simp at hg
           · exact h2 j e'
+      · cases ht : truncText dw fill used gs with
+        | none => simp [ht] at h
+        | some p =>
+          obtain ⟨kept, used', c⟩ := p
+          simp only [ht] at h
+          cases hr : truncGo dw fill (cut || c) used' items with
+          | none => simp [hr] at h
+          | some r' =>
+            simp [hr] at h
+            subst h
+            obtain ⟨h1, h2⟩ := ih (cut || c) used' r' hrest hr
+            refine ⟨by unfold escsOf at h1 ⊢; simp [List.filter, isEsc, h1], ?_⟩
+            intro j hj
+            rcases List.mem_cons.mp hj with e' | e'
+            · subst e'
+              exact truncText_ok dw fill hf used gs kept used' c (hok _ List.mem_cons_self) ht
+            · exact h2 j e'
 
 theorem truncNoTail_escs (dw : Nat) (fill : Option Char) (hf : ∀ f, fill = some f → f ≠ ESC)
     (items r : List Item) (hok : ∀ i ∈ items, Item.ok i) (h : truncNoTail dw fill items = some r) :
@@ -138,7 +152,7 @@ theorem truncNoTail_escs (dw : Nat) (fill : Option Char) (hf : ∀ f, fill = som
   unfold truncNoTail at h
   split at h
   · cases h; exact ⟨rfl, hok⟩
-  · exact truncGo_escs dw fill hf 0 items r hok h
+  · exact truncGo_escs dw fill hf false 0 items r hok h
 
 /-- `escapes (truncate s) = escapes s ++ escapes tail`. -/
 theorem truncate_escs (dw : Nat) (tail : List Item) (fill : Option Char)
@@ -153,13 +167,13 @@ theorem truncate_escs (dw : Nat) (tail : List Item) (fill : Option Char)
     | none => simp [hrt] at h
     | some rt =>
       simp only [hrt] at h
-      cases hg : truncGo dw fill (width rt) items with
+      cases hg : truncGo dw fill false (width rt) items with
       | none => simp [hg] at h
       | some r0 =>
         simp [hg] at h
         subst h
         obtain ⟨t1, t2⟩ := truncNoTail_escs dw fill hf tail rt htok hrt
-        obtain ⟨g1, g2⟩ := truncGo_escs dw fill hf (width rt) items r0 hok hg
+        obtain ⟨g1, g2⟩ := truncGo_escs dw fill hf false (width rt) items r0 hok hg
         refine ⟨Or.inr (by simp [escsOf, List.filter_append] at t1 g1 ⊢; rw [g1, t1]), ?_⟩
         intro j hj
         rcases List.mem_append.mp hj with e | e
